@@ -660,13 +660,18 @@ def run_c03():
     ML = ctx.pick(3, 4)
     consts = {'MaxLayers': ML, 'Caps': core.tla_value(set(range(0, ML + 3))), 'Outcomes': '{"imf", "resid", "imf_energy", "raise"}', 'Dev': '{}'}
     cfg = os.path.join(ctx.work, 'sf.cfg')
-    core.write_cfg(cfg, spec='Spec', invariants=SIFT_INVS, properties=['Terminates'], constants=consts)
+    core.write_cfg(cfg, spec='Spec', invariants=SIFT_INVS + ['IndInvHolds'], properties=['Terminates', 'RefinesInd'], constants=consts)
     res = core.run_tlc(ctx, 'Sift', cfg, name='Sift outer loop x caps 0..%d' % (ML + 2))
     core.require_ok(res, 'Leg A Sift with caps')
+    # every cap, not only 0..ML+2: inductive invariants on the typed skeletons (which the TLC models refine)
+    ind = [['--init=Init', '--inv=IndInv', '--length=0'], ['--init=IndInit', '--inv=IndInv', '--length=1']]
+    core.apalache(ctx, 'SiftInd', ind, 'SiftInd!IndInv inductive: CapRespected and the column bookkeeping of the classic loop for EVERY cap; Sift refines SiftInd (TLC: RefinesInd)')
+    core.apalache(ctx, 'SiftVariantsInd', ind, 'SiftVariantsInd!IndInv inductive: CapRespected, MaskCount, CeemdCount for EVERY natural cap / natural length / list length; '
+                  'SiftVariants refines SiftVariantsInd (TLC: RefinesInd)')
     core.write_cfg(cfg, spec='Spec', invariants=['W_Capped'], constants=consts)
     core.expect_violation(ctx, 'Sift', cfg, 'W_Capped', 'Sift W_Capped', workers=4)
     vc = {'MaxNat': 5, 'Caps': '{0, 1, 2, 3, 4, 5, 6, 7}', 'ListLens': '{0, 1, 2, 3, 6, 9}', 'Dev': '{}'}
-    core.write_cfg(cfg, spec='Spec', invariants=['CapRespected', 'MaskCount', 'CeemdCount'], properties=['Terminates'], constants=vc)
+    core.write_cfg(cfg, spec='Spec', invariants=['CapRespected', 'MaskCount', 'CeemdCount', 'IndInvHolds'], properties=['Terminates', 'RefinesInd'], constants=vc)
     res = core.run_tlc(ctx, 'SiftVariants', cfg, name='SiftVariants caps', workers=4)
     core.require_ok(res, 'Leg A SiftVariants')
     core.write_cfg(cfg, spec='Spec', invariants=['CapRespected'], constants=dict(vc, Dev='{"CEEMD_CapTestBeforeIncrement"}'))
